@@ -1308,8 +1308,10 @@ func (d *dealer) syncDelCalleeReg(callee *wamp.Session, regID wamp.ID) (bool, er
 	}
 
 	// Remove the callee from the registration.
+	var found bool
 	for i := range reg.callees {
 		if reg.callees[i] == callee {
+			found = true
 			if d.debug {
 				d.log.Printf("Unregistered procedure %v (regID=%v) (callee=%v)",
 					reg.procedure, regID, callee.ID)
@@ -1322,6 +1324,10 @@ func (d *dealer) syncDelCalleeReg(callee *wamp.Session, regID wamp.ID) (bool, er
 			}
 			break
 		}
+	}
+	if !found {
+		// The session is not a callee of this registration.
+		return false, fmt.Errorf("session %v not registered for registration: %v", callee, regID)
 	}
 
 	// If no more callees for this registration, then delete the registration
